@@ -280,20 +280,28 @@ def check_history(A, ops):
             v2 = L.float_of(r['b2'])
             old = Fraction(L.float_of(fields_b[2]))
             new = L.float_of(fields_a[2])
+            # the offset at the protocol's microsecond resolution: what the builtin timedelta makes
+            # of the value (round-half-even; a builtin, not repository code).  Acknowledged modes
+            # 3 / 4 imply a finite value.
+            us = None
+            if mode in (3, 4):
+                us = _dt.timedelta(seconds=v2) // _dt.timedelta(microseconds=1)
+                if abs(Fraction(us, 10 ** 6) - Fraction(v2)) > Fraction(1, 2 * 10 ** 6) + Fraction(1, 10 ** 9):
+                    bad.append(('acu_harness_timedelta_resolution', 'timedelta does not round to the nearest '
+                                'microsecond (harness assumption)', k))
             if mode == 1:
                 want = old + Fraction(1, 86400)
             elif mode == 2:
                 want = old - Fraction(1, 86400)
             elif mode == 3:
-                want = Fraction(v2) / 86400
+                want = Fraction(us, 10 ** 6) / 86400
             else:
-                want = old + Fraction(v2) / 86400
-            # microsecond resolution of the offset plus binary64 rounding of the day fraction
-            tol = Fraction(1, 2 * 10 ** 6) / 86400 + abs(want) * Fraction(1, 10 ** 12) + Fraction(1, 10 ** 15)
+                want = old + Fraction(us, 10 ** 6) / 86400
+            # binary64 rounding of the day-fraction arithmetic (a handful of operations)
+            tol = (abs(want) + abs(old)) * Fraction(1, 10 ** 12) + Fraction(1, 10 ** 18)
             if not math.isfinite(new) or abs(Fraction(new) - want) > tol:
-                us = abs(Fraction(v2)) * 10 ** 6
                 klass = 'acu_time_offset_readback'
-                if mode in (3, 4) and us <= Fraction(1, 2):
+                if mode in (3, 4) and us == 0:
                     klass = 'acu_time_offset_zero_reads_clock'
                 bad.append((klass, 'acknowledged time offset (mode %d, %r s, previous fraction %r) reads back as day '
                             'fraction %r, expected %r' % (mode, v2, float(old), new, float(want)), k))
@@ -322,7 +330,9 @@ def oracle(ctx):
     n = 0
     seen = {}
     with L.patched() as A, frozen_clock():
-        hist = [list(c) for c in CORPUS] + [gen_ops(ctx) for _ in range(ctx.n(250, 4000))]
+        hist = [list(c) for c in CORPUS]
+        hist += [[tuple(o) for o in js['ops']] for _, js in c14.corpus_files('C05') if 'ops' in js]
+        hist += [gen_ops(ctx) for _ in range(ctx.n(250, 4000))]
         for ops in hist:
             for klass, what, k in check_history(A, ops):
                 if seen.get(klass, 0) < 1:
